@@ -72,6 +72,19 @@ class RevolveCheckpointSchedule(CheckpointSchedule):
         write_ics = False
         adj_deps = False
 
+        # A checkpoint is moved, rather than copied, when it is read for the
+        # last time, i.e. it is not read again before it is rewritten.
+        last_read = set()
+        read_later = set()
+        for j in range(len(self._schedule) - 1, -1, -1):
+            op, (op_n, _, op_storage) = _convert_action(self._schedule[j])
+            if op in ("Read", "Read_memory", "Read_disk"):
+                if (op_storage, op_n) not in read_later:
+                    last_read.add(j)
+                    read_later.add((op_storage, op_n))
+            elif op in ("Write", "Write_memory", "Write_disk"):
+                read_later.discard((op_storage, op_n))
+
         i = 0
         while i < len(self._schedule):
             cp_action, (n_0, n_1, storage) = _convert_action(self._schedule[i])
@@ -85,7 +98,7 @@ class RevolveCheckpointSchedule(CheckpointSchedule):
                         raise InvalidActionIndex
                     write_ics = True
                     adj_deps = False
-                    snapshots.add(w_n0)
+                    snapshots.add((w_storage, w_n0))
                 elif (w_cp_action == "Write_Forward"
                       or w_cp_action == "Write_Forward_memory"):
                     if w_n0 != n_1:
@@ -112,8 +125,8 @@ class RevolveCheckpointSchedule(CheckpointSchedule):
                   or cp_action == "Read_memory"
                   or cp_action == "Read_disk"):
                 self._n = n_0
-                if n_0 == self._max_n - self._r - 1:
-                    snapshots.remove(n_0)
+                if i in last_read:
+                    snapshots.remove((storage, n_0))
                     yield Move(n_0, storage, StorageType.WORK)
                 else:
                     yield Copy(n_0, storage, StorageType.WORK)
